@@ -420,6 +420,186 @@ def check_schedule_constants(ctx):
                "%s" % pm, init.lineno)
 
 
+PARAM_BOX = {
+    "visited_times": ("1", "1e9"), "nu": ("1e-6", "1e6"), "rho": ("1e-6", "0.999999999"), "c": ("1e-6", "1e6"),
+    "delta_tilde": ("1e-300", "1"), "bound": ("1e-6", "1e6"), "variance": ("1e-3", "1e12"), "minvariance": ("1e-3", "1e-3"),
+    "rounds": ("2", "1e12"), "depth": ("0", "200"), "n": ("1", "1e9"), "k": ("1", "1e9"), "delta": ("1e-12", "0.999999999999"),
+    "c1": ("1e-9", "1e9"), "iteration": ("1", "1e12"), "reward": ("-1e12", "1e12"), "mean_reward": ("-1e12", "1e12"),
+}
+
+
+def _box_for(expr):
+    import sympy as sp
+    from mpmath import iv
+    from .. import symx as SX
+    box = {}
+    for sym in expr.free_symbols:
+        if sym.name in PARAM_BOX:
+            lo, hi = PARAM_BOX[sym.name]
+            box[sym] = iv.mpf([lo, hi])
+        else:
+            box[sym] = iv.mpf(["-1e12", "1e12"])
+    # opaque list functions (sum of rewards etc.) range over the reals
+    reps = {}
+    for f in expr.atoms(sp.core.function.AppliedUndef):
+        s2 = sp.Symbol("F%d" % len(reps), real=True)
+        reps[f] = s2
+        name = f.func.__name__
+        if name == "LEN":
+            box[s2] = iv.mpf(["1", "1e9"])
+        elif name == "VAR":
+            box[s2] = iv.mpf(["0", "1e12"])
+        else:
+            box[s2] = iv.mpf(["-1e12", "1e12"])
+    return expr.xreplace(reps), box, reps
+
+
+def _domain_obligations(expr):
+    """Sub-terms whose argument must lie in a function's domain: (kind, argument)."""
+    import sympy as sp
+    out = []
+    for sub in sp.preorder_traversal(expr):
+        if sub.func is sp.log:
+            out.append(("log", sub.args[0]))
+        elif sub.is_Pow and sub.args[1].is_Rational and not sub.args[1].is_Integer:
+            out.append(("root", sub.args[0]))
+        elif sub.is_Pow and sub.args[1].is_number and sub.args[1] < 0:
+            out.append(("denominator", sub.args[0]))
+    return out
+
+
+def check_domains(ctx):
+    """R01-DOMAIN: under the documented parameter ranges the arguments of log / sqrt / divisions in the index and
+    threshold formulas stay inside the functions' domains (math.sqrt/math.log raise otherwise), and the
+    confidence level delta~ handed to them never exceeds 1 (log(1/delta~) >= 0)."""
+    import sympy as sp
+    from mpmath import iv
+    from .. import ival as IV
+    from .. import summary as SM
+    from .. import symx as SX
+    model = ctx.model
+    n = 0
+    # (1) delta~ at every site that computes it
+    for algo in ("HCT", "VHCT"):
+        c = model.cls(algo)
+        for fn in c.methods.values():
+            if not any(isinstance(s, ast.Assign) and norm_src(s.targets[0]) == "delta_tilde" for s in ast.walk(fn)):
+                continue
+            qual = "%s.%s" % (algo, fn.name)
+            ctx.fn(qual)
+            Sm = SM.Summarizer(model, algo)
+            Sm.skip_loops = True
+            ps = Sm.run(fn)
+            states = [st2 for (_, st2) in Sm.at_loop] + ps
+            vals = {str(p.locals.get("delta_tilde")): p.locals.get("delta_tilde") for p in states if p.locals.get("delta_tilde") is not None}
+            for txt, v in vals.items():
+                n += 1
+                e2, box, reps = _box_for(v)
+                try:
+                    r = IV.ieval(e2, box)
+                    ok = r.a > 0 and r.b <= 1
+                    why = "delta~ in (%s, %s] for every delta in (0,1), t >= 1" % (r.a, r.b) if ok else \
+                        "delta~ = %s ranges over [%s, %s]: it can exceed 1, then log(1/delta~) < 0 and the square root in the index raises" % (
+                            txt, r.a, r.b)
+                except report_AnalysisError() as ex:
+                    ok, why = False, "cannot enclose delta~ = %s (%s)" % (txt, ex)
+                ctx.ob("R01-DOMAIN", ok, c.file, qual, "delta_tilde = %s" % txt[:80], why, fn.lineno)
+    # (2) the formulas themselves
+    targets = [("HOO_node", "compute_u_value"), ("HCT_node", "compute_u_value"), ("VHCT_node", "compute_u_value"),
+               ("VHCT_node", "compute_tau_hi_value"), ("StoSOO_node", "compute_b_value")]
+    for ncls, meth in targets:
+        if ncls not in model.classes or meth not in model.classes[ncls].methods:
+            continue
+        c = model.cls(ncls)
+        fn = c.methods[meth]
+        qual = "%s.%s" % (ncls, meth)
+        ctx.fn(qual)
+        Sm = SM.Summarizer(model, ncls)
+        for p in Sm.run(fn):
+            if ("self.visited_times == 0", True) in p.conds:
+                continue
+            for a, v in p.stores.items():
+                for kind, arg in _domain_obligations(v):
+                    n += 1
+                    e2, box, reps = _box_for(arg)
+                    try:
+                        r = IV.ieval(e2, box)
+                        ok = r.a >= 0 if kind == "root" else r.a > 0
+                        why = "%s argument in [%s, %s]" % (kind, r.a, r.b)
+                    except report_AnalysisError() as ex:
+                        ok, why = False, "cannot enclose the %s argument %s (%s)" % (kind, arg, ex)
+                    ctx.ob("R01-DOMAIN", ok, c.file, qual, "self.%s: %s(%s)" % (a, kind, str(arg)[:70]),
+                           why if ok else why + ": for documented parameters the %s can leave its domain (ValueError / nan)" % kind, fn.lineno)
+    ctx.count("R01-DOMAIN domain obligations", n, 10)
+
+
+def report_AnalysisError():
+    from ..report import AnalysisError as AE
+    return AE
+
+
+def check_reco_total(ctx):
+    """R01-RECO: a recommendation computed by a fold over a non-empty candidate set with a None-initialised winner must
+    not be able to skip every candidate: the fold has no filter (else get_last_point can return None / raise)."""
+    from .. import idioms as ID
+    model = ctx.model
+    for name in ("DOO", "SOO", "SequOOL", "StoSOO", "StroquOOL"):
+        cls = model.cls(name)
+        fn = model.own_method(name, "get_last_point")
+        folds = ID.find_folds(fn)
+        for f in folds:
+            ctx.ob("R01-RECO", not f.filters, cls.file, "%s.get_last_point" % name, "recommendation fold over %s" % f.set_src,
+                   "no candidate can be skipped: the winner is set as soon as one candidate exists" if not f.filters else
+                   "candidates are filtered by %s: when every candidate is filtered out the winner stays None and get_last_point "
+                   "returns None / raises" % f.filters, f.if_node.lineno)
+
+
+def check_none_returns(ctx):
+    """R01-NONE: pull must return a point.  An attribute that the constructor sets to None may be returned by pull only
+    where a store of a point into it dominates the return inside pull; otherwise the protocol admits a round in
+    which pull returns the constructor's None (path-insensitive: a report here needs a demonstration to be a
+    defect - see known_findings.json)."""
+    model = ctx.model
+    eff = E.Effects(model)
+    from .. import callsites as CS
+    for cls in algorithms(model):
+        init = model.lookup(cls.name, "__init__")[1]
+        none_attrs = {s.targets[0].attr for s in ast.walk(init) if isinstance(s, ast.Assign) and len(s.targets) == 1 and
+                      is_self_attr(s.targets[0]) and isinstance(s.value, ast.Constant) and s.value.value is None}
+        if not none_attrs:
+            continue
+        pull = model.lookup(cls.name, "pull")[1]
+        if model.classes.get(cls.name) and "pull" not in cls.methods:
+            continue
+        fc = CS.FnCtx(model, eff, cls.name, pull)
+        bad = {}
+        for r in [x for x in ast.walk(pull) if isinstance(x, ast.Return) and x.value is not None]:
+            at = fc.cfg.node_of(r)
+            v = r.value
+            cands = []
+            if is_self_attr(v):
+                cands = [(v.attr, at)]
+            elif isinstance(v, ast.Name):
+                ds, entry = fc.reaching(v.id, at)
+                for n, rr in ds:
+                    if rr[0] == "assign" and is_self_attr(rr[1]):
+                        cands.append((rr[1].attr, n))
+            for attr, where in cands:
+                if attr not in none_attrs:
+                    continue
+                stores = [n for n, rr in fc.defs_of("self." + attr) if not (rr[0] == "assign" and isinstance(rr[1], ast.Constant) and rr[1].value is None)]
+                if not any(fc.cfg.dominates(n, where) for n in stores):
+                    bad.setdefault(attr, []).append(r.lineno)
+        for attr in sorted(none_attrs):
+            if attr in bad:
+                ctx.ob("R01-NONE", False, cls.file, "%s.pull" % cls.name, "self.%s" % attr,
+                       "pull can return self.%s on a path (return at line %s) on which no point has been stored into it since the "
+                       "constructor set it to None" % (attr, sorted(set(bad[attr]))), bad[attr][0])
+            elif any(is_self_attr(x, attr) for x in ast.walk(pull)):
+                ctx.ob("R01-NONE", True, cls.file, "%s.pull" % cls.name, "self.%s" % attr,
+                       "wherever pull returns self.%s a point was stored into it earlier in the same call (or it is not returned)" % attr, pull.lineno)
+
+
 def import_eval(ctx):
     """SequOOL.get_last_point reads the first reward of every searched cell: a cell must not enter `chosen` before
     it is handed out (IndexError otherwise) - C07's R07-EVAL obligations for SequOOL, re-reported."""
@@ -439,8 +619,11 @@ def run(ctx):
     check_attr(ctx)
     check_prov(ctx)
     check_sample_uniform(ctx)
-    check_schedule_constants(ctx)
+    ctx.attempt("R01-FORM", ctx.model.cls("StroquOOL").file, "StroquOOL.__init__", "schedule constants", check_schedule_constants, ctx)
     import_eval(ctx)
+    ctx.attempt("R01-DOMAIN", "PyXAB/algos", "*", "function domains", check_domains, ctx)
+    check_reco_total(ctx)
+    check_none_returns(ctx)
     _partition.feed(ctx, (), rename={"R02-CENTRE": "R01-INSIDE", "R02-INSIDE": "R01-INSIDE", "R02-TOTAL": "R01-TOTAL"})
     return dict(
         explanation=(
